@@ -694,8 +694,12 @@ _COUNT_NAMES = re.compile(r'::(position|rposition|count|len|capacity)$')
 _ENUMERATE = re.compile(r'Iterator>?::enumerate$')
 _KEY_ITERS = [JL + 'iter', JL + 'iter_mut', S + 'iter', S + 'iter_mut',
               re.compile(r"^<&'a (mut )?(slab::Slab<T>|yash_env::job::JobList) as core::iter::traits::collect::IntoIterator>::into_iter$")]
-_SLAB_KEYED = re.compile(r'^slab::Slab::<T>::(get|get_mut|contains|try_remove|remove|get2_mut|get_disjoint_mut|get_unchecked|get_unchecked_mut)$|'
-                         r'^<slab::Slab<T> as core::ops::index::Index(Mut)?<usize>>::index(_mut)?$')
+# every method of the slab that takes a usize takes a key, except the capacity family (which takes a count)
+_SLAB_METHOD = re.compile(r'^slab::Slab::<T>::(\w+)$|^<slab::Slab<T> as [^>]*(<usize>)?>::(\w+)$')
+_SLAB_TAKES_COUNT = re.compile(r'::(with_capacity|reserve|reserve_exact|shrink_to)$')
+# functions of the job list API whose result is documented to be a job index
+_INDEX_RETURNING = [JL + 'insert', JL + 'find_by_pid', JL + 'update_status', JL + 'current_job', JL + 'previous_job',
+                    "yash_env::job::id::JobId::<'_>::find"]
 _INDEX_FIELDS = ('current_job_index', 'previous_job_index')
 _VAL = 'val'
 
@@ -859,10 +863,12 @@ class _CountFlow:
             return add(dest['l'], new)
 
         # sinks: the key argument of an accessor of the job slab
-        if any(_SLAB_KEYED.search(n) for n in names) and _on_jobs(t):
-            for x in al[1:]:
-                sink(x, 'slab-key', t)
-            return False
+        if any(_SLAB_METHOD.search(n) for n in names) and _on_jobs(t) and not any(_SLAB_TAKES_COUNT.search(n) for n in names):
+            keyed = [n for n in range(1, len(args)) if _strip_ref((t.get('at') or [''] * len(args))[n]) == 'usize']
+            for n in keyed:
+                sink(al[n], 'slab-key', t)
+            if keyed:
+                return False
         # mem::replace / swap on an index field
         if any(n in ('core::mem::replace', 'core::mem::swap') for n in names) and args:
             fld = index_field(_trace_place(du, args[0]))
@@ -961,6 +967,8 @@ def r9(cx):
     for f in _INDEX_FIELDS:
         cx.require(any(fl['name'] == f and fl['ty'] == 'usize' for v in F.adt(JOBLIST)['variants'] for fl in v['fields']),
                    'JobList::%s is no longer a usize field' % f)
+    for fn in _INDEX_RETURNING:
+        cx.require(fn in F.bodies, 'index-returning function of the job list API not found: %s' % fn)
     eng = _CountFlow(F)
     found = {}
     for fn, body in F.bodies.items():
@@ -971,6 +979,11 @@ def r9(cx):
         for x, kind, root, loc in hits:
             if x[0] != 'P':
                 found[(x, kind, root)] = loc
+        if fn in _INDEX_RETURNING:
+            eng.sinks.setdefault((fn, 'returned-index'), '%s:%s' % (body.file, body.line))
+            for x in ret:
+                if x[0] != 'P' and x[2] == _VAL:
+                    found[(x, 'returned-index', fn)] = '%s:%s' % (body.file, body.line)
     # what was looked at
     n_field = n_key = 0
     for (root, kind), loc in sorted(eng.sinks.items()):
@@ -978,7 +991,7 @@ def r9(cx):
         cx.site('%s: job index consumed (%s) at %s' % (root, kind, loc))
         if kind in _INDEX_FIELDS:
             n_field += 1
-        else:
+        elif kind == 'slab-key':
             n_key += 1
     cx.floor(n_field, 6, '(function, field) pairs writing current_job_index / previous_job_index')
     cx.floor(n_key, 6, 'functions passing a key to an accessor of the job slab')
@@ -992,7 +1005,19 @@ def r9(cx):
     control = sorted((root, kind, loc, x[1]) for (x, kind, root), loc in found.items() if x[0] == 'K')
     for root, kind, loc, src in control:
         cx.site('control: the slab key from %s (%s) reaches %s in %s at %s' % (src[1], src[2], kind, root, loc))
-    cx.require(any(kind in _INDEX_FIELDS and root == JL + 'remove' for root, kind, loc, src in control),
+    # (JobList::remove or a helper of JobList it calls: the reselection may be extracted)
+    removal = {JL + 'remove'}
+    grew = True
+    while grew:
+        grew = False
+        for r in list(removal):
+            for b in F.by_root.get(r, []):
+                for blk, t in b.calls():
+                    d = t['f'].get('def')
+                    if d and d.startswith(JL) and d in F.bodies and F.bodies[d].root not in removal:
+                        removal.add(F.bodies[d].root)
+                        grew = True
+    cx.require(any(kind in _INDEX_FIELDS and root in removal for root, kind, loc, src in control),
                'the flow engine no longer follows the slab iterator key into the previous/current job index in JobList::remove '
                '(the selection code changed shape: review rules/C12.py R9)')
     cx.sample({'sources': len(eng.sources), 'sinks': len(eng.sinks), 'bodies': len(F.bodies), 'control_flows': len(control)})
@@ -1000,7 +1025,8 @@ def r9(cx):
         if x[0] != 'S':
             continue
         what, sfn, sloc = x[1]
-        where = 'JobList::%s' % kind if kind in _INDEX_FIELDS else 'the key of a job slab accessor'
+        where = ('JobList::%s' % kind if kind in _INDEX_FIELDS else 'the key of a job slab accessor' if kind == 'slab-key' else
+                 'returned to the callers as the index of a job')
         cx.violation(root, 'count-as-job-index:%s:%s' % (kind, what),
                      'the result of %s() in %s (%s) - a number that counts iterations/elements - is used as a job index (%s): it equals the '
                      'job\'s index only while no lower job number is vacant; after a lower-numbered job has been removed it designates '
